@@ -192,7 +192,8 @@ func (s *JavaFullListener) EnterInterfaceBodyDeclaration(ctx *parser.InterfaceBo
 	hasEnterClass = true
 	for _, modifier := range ctx.AllModifier() {
 		modifier := modifier.(*parser.ModifierContext).GetChild(0)
-		if reflect.TypeOf(modifier.GetChild(0)).String() == "*parser.AnnotationContext" {
+		// `native`, `synchronized`, ... are tokens and have no children
+		if modifier.GetChildCount() > 0 && reflect.TypeOf(modifier.GetChild(0)).String() == "*parser.AnnotationContext" {
 			annotationContext := modifier.GetChild(0).(*parser.AnnotationContext)
 			common_listener.BuildAnnotation(annotationContext)
 		}
@@ -575,7 +576,10 @@ func (s *JavaFullListener) EnterMethodCall(ctx *parser.MethodCallContext) {
 	if targetCtx.GetChild(0) != nil {
 		switch x := targetCtx.GetChild(0).(type) {
 		case *parser.MethodCallContext:
-			targetType = x.Identifier().GetText()
+			// this(...) and super(...) have no identifier
+			if x.Identifier() != nil {
+				targetType = x.Identifier().GetText()
+			}
 		}
 	}
 
